@@ -45,5 +45,31 @@ was written for: it led to fix 5fd486c, which makes the same edit harmless):
 | seeded change | breaks | files | detected by (oracle) | note |
 |---------------|--------|-------|----------------------|------|
 ''' + "\n".join(rows) + "\n\n"
+# automated mutation sweep
+import subprocess, collections
+try:
+    rs=[json.loads(l) for l in open('/verif/mutsweep/results.jsonl')]
+except Exception:
+    rs=[]
+if rs:
+    cnt=collections.Counter(r['outcome'].split(' (')[0] for r in rs)
+    by=collections.Counter(r.get('by') for r in rs if r['outcome']=='detected')
+    tri=subprocess.run(['python3','/verif/mutsweep/triage.py'],stdout=subprocess.PIPE,text=True).stdout
+    surv=[l for l in tri.splitlines() if l.startswith('survivors:')]
+    untri=[l for l in tri.splitlines() if l.startswith('UNTRIAGED')]
+    gaps=sorted({r['gap'] for r in rs if r.get('gap')})
+    sec+=f"""**Automated mutation sweep** (`mutsweep/`: `mutgen` enumerates syntactic mutations - negated conditions, swapped
+comparison and boolean operators, deleted assignments and calls, `continue`/`break` swaps, integer literals +1 -
+in the files the claimed properties are anchored in; `mutsweep.py` samples them with a seeded PRNG, applies each
+in a scratch worktree under /tmp, keeps those that compile and pass the existing suite, and runs the checks
+covering the file against the worktree with a reduced budget of 12 s; `triage.py` classifies every survivor and
+fails if one is unclassified). So far {len(rs)} mutants: {cnt.get('does-not-compile',0)} do not compile,
+{cnt.get('killed-by-existing-tests',0)} are killed by the existing tests, {cnt.get('detected',0)} pass the existing tests and
+are detected by a check ({', '.join(f'{k}: {v}' for k,v in sorted(by.items()))}), {cnt.get('survived',0)} survive.
+{surv[0] if surv else ''}{' UNTRIAGED: '+str(len(untri)) if untri else ''}.
+The survivors were read one by one: they sit in helpers no claimed property covers (formatting, string parsing,
+OCI-to-NRI conversion, option setters, launched plugins) or are behaviour-preserving (reasons per site in
+`mutsweep/triage.py`), except for the gaps listed here, each closed and pinned by a catalogue mutant:
+""" + "\n".join(f"* {g}" for g in gaps) + "\n\n"
 open(p,'w').write(s[:i]+sec+s[j:])
 print(n, "seeded,", first, "caught as the checks stood")
